@@ -115,7 +115,7 @@ func (sc *symCtx) sym(v ssa.Value, depth int) string {
 	case *ssa.FieldAddr:
 		_, f := fieldVar(x)
 		s := sc.sym(x.X, depth+1)
-		return "&" + s + "." + f.Name()
+		return "&" + strings.TrimPrefix(s, "&") + "." + f.Name()
 	case *ssa.Field:
 		_, f := fieldVar(x)
 		return sc.sym(x.X, depth+1) + "." + f.Name()
